@@ -1,10 +1,10 @@
 package sctp
 
 import (
-	"strings"
 	"fmt"
 	"os"
 	"sort"
+	"strings"
 	"time"
 )
 
@@ -244,6 +244,14 @@ func c10Scenario(cfg c10Cfg, seq []int) *Scenario {
 					if want < cfg.minCwnd {
 						want = cfg.minCwnd
 					}
+					if before.cwnd < want && after.cwnd > max(before.cwnd, cfg.minCwnd) {
+						// "the congestion window is cut on every loss signal": the 4 MTU floor of the
+						// slow-start threshold is no reason to open a window that was smaller
+						m.Failf("cwnd.loss-raise", "%s: loss signalled by three gap reports and the window went UP, %d -> %d (ssthresh %d -> %d): the floor of 4 MTU meant for the slow-start threshold was installed as the window", where, before.cwnd, after.cwnd, before.ssthresh, after.ssthresh)
+					}
+					if before.cwnd < want {
+						want = max(before.cwnd, cfg.minCwnd)
+					}
 					rackToo := rl.marks > marks0 && after.cwnd == min(before.cwnd, want) // the time-based detector spoke first in this very event
 					if after.cwnd != want && !rackToo {
 						m.Failf("cwnd.fastrtx", "%s: loss signalled by three gap reports but cwnd went %d -> %d, want %d", where, before.cwnd, after.cwnd, want)
@@ -263,6 +271,10 @@ func c10Scenario(cfg c10Cfg, seq []int) *Scenario {
 					// a chunk was declared lost by the time-based detector and is retransmitted: a loss
 					// signal like any other, and nothing of the congestion state reacted to it
 					m.Failf("cwnd.rack-loss", "%s: %d chunk(s) declared lost by the RACK detector and retransmitted, yet no congestion response: cwnd %d -> %d, ssthresh %d unchanged, not in fast recovery, no T3 expiry", where, rl.marks-marks0, before.cwnd, after.cwnd, after.ssthresh)
+				}
+				if rl.marks > marks0 && after.t3 == before.t3 && !before.inFR && after.inFR && after.cwnd > max(after.ssthresh, cfg.minCwnd) {
+					// the response itself: slow-start threshold halved, window brought down to it
+					m.Failf("cwnd.rack-loss", "%s: %d chunk(s) declared lost by the RACK detector; the slow-start threshold went %d -> %d but the window was left at %d (before: %d): a loss signal that does not cut the window", where, rl.marks-marks0, before.ssthresh, after.ssthresh, after.cwnd, before.cwnd)
 				}
 				if rl.marks > marks0 && after.t3 == before.t3 && before.inFR && !modelFR && before.cwnd > floor &&
 					after.cwnd >= before.cwnd && after.ssthresh == before.ssthresh && before.exit == after.exit {
